@@ -1,36 +1,52 @@
+import HavocVerif.Driver.C02
 import HavocVerif.Driver.C03
 /-
   Line-protocol driver.  `driver <property> < ops.txt` prints one verdict per
-  input line, prefixed with the 1-based line number.
+  input line, prefixed with the 1-based line number.  A line `reset` starts a
+  fresh model state (new case).
 -/
 open Havoc
 
-def stepFor (prop : String) : Option (Line → Verdict) :=
+structure Stepper where
+  σ : Type
+  init : σ
+  step : σ → Line → σ × Verdict
+
+def stateless (f : Line → Verdict) : Stepper := ⟨Unit, (), fun _ l => ((), f l)⟩
+
+def stepperFor (prop : String) : Option Stepper :=
   match prop with
-  | "C03" => some DriverC03.step
+  | "C02" => some ⟨DriverC02.St, {}, DriverC02.step⟩
+  | "C03" => some (stateless DriverC03.step)
   | _ => none
 
-partial def loop (h : IO.FS.Stream) (out : IO.FS.Stream) (f : Line → Verdict) (n : Nat) : IO Unit := do
+partial def loop (h : IO.FS.Stream) (out : IO.FS.Stream) (S : Stepper) (st : S.σ) (n : Nat) : IO Unit := do
   let line ← h.getLine
   if line.isEmpty then return ()
   let t := line.trimAscii.toString
   if t.isEmpty || t.startsWith "#" then
-    loop h out f n
+    loop h out S st n
+  else if t == "reset" || t.startsWith "reset " then
+    out.putStrLn s!"{n} ok"
+    loop h out S S.init (n + 1)
   else
-    let v := match parseLine t with
-      | some l => f l
-      | none => Verdict.bad "unparsable line"
-    out.putStrLn s!"{n} {v.render}"
-    loop h out f (n + 1)
+    match parseLine t with
+    | some l =>
+      let (st', v) := S.step st l
+      out.putStrLn s!"{n} {v.render}"
+      loop h out S st' (n + 1)
+    | none =>
+      out.putStrLn s!"{n} {(Verdict.bad "unparsable line").render}"
+      loop h out S st (n + 1)
 
 def main (args : List String) : IO UInt32 := do
   match args with
   | [prop] =>
-    match stepFor prop with
-    | some f =>
+    match stepperFor prop with
+    | some S =>
       let stdin ← IO.getStdin
       let stdout ← IO.getStdout
-      loop stdin stdout f 1
+      loop stdin stdout S S.init 1
       return 0
     | none => IO.eprintln s!"unknown property {prop}"; return 2
   | _ => IO.eprintln "usage: driver <property> < ops.txt"; return 2
